@@ -2006,6 +2006,9 @@ func (ctx Ctx) funcDecl(d *ast.FuncDecl) coq.FuncDecl {
 }
 
 func (ctx Ctx) constSpec(spec *ast.ValueSpec) coq.ConstDecl {
+	if len(spec.Names) > 1 {
+		ctx.unsupported(spec, "multiple names in one const/var spec (split them up)")
+	}
 	ident := spec.Names[0]
 	cd := coq.ConstDecl{
 		Name:     ident.Name,
